@@ -63,10 +63,14 @@ def theorems_of(prop):
 def forbidden_hits():
     hits = []
     for path in glob.glob(os.path.join(LEAN, '**', '*.lean'), recursive=True):
-        if '/.lake/' in path:
+        if '/.lake/' in path or os.path.basename(path).startswith('.audit_'):
             continue
         incomment = 0
-        for n, line in enumerate(open(path), 1):
+        try:
+            text = open(path).read().splitlines(True)
+        except FileNotFoundError:      # a temporary file of a concurrent check
+            continue
+        for n, line in enumerate(text, 1):
             code = line
             # crude comment stripping: block comments and line comments
             if incomment:
